@@ -50,7 +50,12 @@ _scratch_root = None
 def scratch_root():
     global _scratch_root
     if _scratch_root is None:
+        inherited = os.environ.get("VERIF_SCRATCH_ROOT")
+        if inherited and os.path.isdir(inherited):      # a worker process: use (and leave the removal to) the check's own scratch directory
+            _scratch_root = inherited
+            return _scratch_root
         _scratch_root = tempfile.mkdtemp(prefix="pyprob-verif-")
+        os.environ["VERIF_SCRATCH_ROOT"] = _scratch_root
         import atexit
 
         atexit.register(lambda: shutil.rmtree(_scratch_root, ignore_errors=True))
@@ -112,6 +117,8 @@ def run_tlc(
     else:
         cmd = ["java", "-XX:+UseParallelGC", f"-XX:ParallelGCThreads={min(8, workers)}", f"-Xmx{heap}", f"-Xss{stack}"]
     cmd += list(java_opts or [])
+    (sdir / "jtmp").mkdir(exist_ok=True)      # the JVM's own temporary directories (tlc-*, SANY*) go into the run's scratch directory, not /tmp
+    cmd += [f"-Djava.io.tmpdir={sdir / 'jtmp'}"]
     cmd += ["-cp", JAR, "tlc2.TLC", "-workers", str(workers), "-metadir", str(sdir / "meta"), "-noGenerateSpecTE"]
     if coverage:
         cmd += ["-coverage", "1"]
